@@ -13,6 +13,15 @@ pub mod vars_timestamp;
 use crate::version::zerv::bump::precedence::Precedence;
 
 impl Zerv {
+    /// Add a bump amount to a component value; a result beyond u64 is an error, never a wrap or a panic
+    pub(crate) fn checked_bump(base: u64, increment: u32) -> Result<u64, ZervError> {
+        base.checked_add(increment as u64).ok_or_else(|| {
+            ZervError::InvalidArgument(format!(
+                "Cannot bump {base} by {increment}: result exceeds the maximum supported value"
+            ))
+        })
+    }
+
     pub fn apply_component_processing(&mut self, args: &ResolvedArgs) -> Result<(), ZervError> {
         let precedence_order: Vec<Precedence> =
             self.schema.precedence_order().iter().cloned().collect();
